@@ -17,6 +17,21 @@ def DupOk (flags : Nat) : Prop :=
 /-- no `PRV_ZERO`: then distinct channel values give distinct Paraver values -/
 def NoZero (flags : Nat) : Prop := hasFlag flags prvZero = false
 
+instance (f : Nat) : Decidable (DupOk f) := by unfold DupOk; infer_instance
+instance (f : Nat) : Decidable (NoZero f) := by unfold NoZero; infer_instance
+
+/-- `prvValue` succeeds (as a Bool, for `decide`) -/
+def prvOkB (f : Nat) (v : Value) : Bool :=
+  match prvValue f v with
+  | .ok _ => true
+  | .error _ => false
+
+theorem prvOkB_ok {f : Nat} {v : Value} (h : prvOkB f v = true) : ∃ x, prvValue f v = .ok x := by
+  unfold prvOkB at h
+  cases hp : prvValue f v with
+  | ok x => exact ⟨x, rfl⟩
+  | error e => rw [hp] at h; cases h
+
 theorem prvValue_error {f : Nat} {v : Value} {x : Err} (h : prvValue f v = .error x) : x = .prvZero := by
   unfold prvValue at h
   cases v with
